@@ -139,7 +139,9 @@ func init() {
 		found := 0
 		var guards []string
 		var rhs string
-		c05walk(fd.Body, func(as *ast.AssignStmt, g []string) {
+		// path condition of the assignment (x_c05_paths.go): enclosing conditions and the negations of earlier
+		// early exits, in normal form, accessors of cert.go (ServerConfig.ClientCertRequired) inlined
+		c05walkPaths(certF, fd.Body, func(as *ast.AssignStmt, g []string) {
 			if len(as.Lhs) == 1 && c05selIs(as.Lhs[0], "ClientAuth") && len(as.Rhs) == 1 {
 				found++
 				guards = g
@@ -150,16 +152,7 @@ func init() {
 			fail("C05: expected exactly one assignment to ClientAuth in ServerConfig.GetTlsConfig, found %d", found)
 			return
 		}
-		// an early `if err != nil { return }` before the assignment counts as an `err == nil` guard
-		earlyReturn := false
-		for _, st := range fd.Body.List {
-			if is, ok := st.(*ast.IfStmt); ok && c05src(is.Cond) == "err != nil" && len(is.Body.List) > 0 {
-				if _, ok := is.Body.List[len(is.Body.List)-1].(*ast.ReturnStmt); ok {
-					earlyReturn = true
-				}
-			}
-		}
-		errNil, errNonNil, flagGuard := earlyReturn, false, false
+		errNil, errNonNil, flagGuard := false, false, false
 		for _, g := range guards {
 			switch g {
 			case "err == nil", "!(err != nil)":
@@ -213,7 +206,13 @@ func init() {
 					continue
 				}
 				name := c05funcName(fn)
-				c05walk(fn.Body, func(as *ast.AssignStmt, g []string) {
+				// cert.go: the model mirrors under which error state of Config.GetTlsConfig the option is applied, so
+				// the guard is the full path condition (early exits included); elsewhere: the enclosing conditions
+				walk := c05walk
+				if rel == "internal/util/cert/cert.go" {
+					walk = func(body ast.Node, visit func(as *ast.AssignStmt, guards []string)) { c05walkPaths(f, body, visit) }
+				}
+				walk(fn.Body, func(as *ast.AssignStmt, g []string) {
 					for i, l := range as.Lhs {
 						if c05selIs(l, "InsecureSkipVerify") && i < len(as.Rhs) {
 							sites = append(sites, site{rel, name, c05src(as.Rhs[i]), strings.Join(g, " && ")})
@@ -713,12 +712,17 @@ func init() {
 }
 
 // c05poolFacts: the trust anchors of the pools assigned to RootCAs / ClientCAs in Config.addCaCertificates.
-//   caPoolInit    what the pool variable(s) are initialised / re-assigned with (sorted, distinct); a variable that is
-//                 not declared inside the function shows as "<outer> name"
-//   caPoolAdds    every call that can put certificates into such a pool: its methods called, and calls that receive it
-//   caPoolPemFrom what the argument(s) of AppendCertsFromPEM are bound to
-//   caPoolStartsEmpty  the pool is a function-local x509.NewCertPool() to which only the PEM returned by
-//                 m.GetCaCertificates() is appended: the pool holds the configured CA certificates and nothing else
+//
+//	caPoolInit    what the pool variable(s) are initialised / re-assigned with (sorted, distinct); a variable that is
+//	              not declared inside the function shows as "<outer> name"
+//	caPoolAdds    every call that can put certificates into such a pool: its methods called, and calls that receive it
+//	caPoolPemFrom what the argument(s) of AppendCertsFromPEM are bound to
+//	caPoolStartsEmpty  the pool is a function-local x509.NewCertPool() to which only the PEM returned by
+//	              m.GetCaCertificates() is appended: the pool holds the configured CA certificates and nothing else
+//
+// A pool that is the result of a function of cert.go (`pool, err := newCertPool(pem)`) is followed into that function
+// (two levels): the facts are then about the variable(s) that function returns, its parameters resolved to the
+// arguments of the call.  So the facts say the same whether the pool is built in place or in a helper.
 func c05poolFacts(b *strings.Builder, certF *ast.File) {
 	fd := findFunc(certF, "Config", "addCaCertificates")
 	if fd == nil || fd.Body == nil {
@@ -734,8 +738,228 @@ func c05poolFacts(b *strings.Builder, certF *ast.File) {
 		}
 		return nil
 	}
-	pools := map[string]bool{}
+	// the function of cert.go a call goes to (f(…) or x.f(…) with a unique declaration of that name), else nil
+	helperOf := func(call *ast.CallExpr) *ast.FuncDecl {
+		name := ""
+		switch fun := call.Fun.(type) {
+		case *ast.Ident:
+			name = fun.Name
+		case *ast.SelectorExpr:
+			if _, ok := fun.X.(*ast.Ident); !ok {
+				return nil
+			}
+			name = fun.Sel.Name
+		}
+		var hit *ast.FuncDecl
+		for _, d := range certF.Decls {
+			if h, ok := d.(*ast.FuncDecl); ok && h.Body != nil && h.Name.Name == name {
+				if _, isSel := call.Fun.(*ast.SelectorExpr); isSel != (h.Recv != nil) {
+					continue
+				}
+				if hit != nil {
+					return nil
+				}
+				hit = h
+			}
+		}
+		return hit
+	}
+	paramIndex := func(h *ast.FuncDecl, name string) int {
+		k := 0
+		for _, fl := range h.Type.Params.List {
+			for _, nm := range fl.Names {
+				if nm.Name == name {
+					return k
+				}
+				k++
+			}
+			if len(fl.Names) == 0 {
+				k++
+			}
+		}
+		return -1
+	}
 	shapeOK := true
+	inits := map[string]bool{}
+	adds := map[string]bool{}
+	pemFrom := map[string]bool{}
+	// analyse: the pool variables `pools` of function h; arg(i) = what the i-th parameter of h is bound to, as a set of
+	// rendered origins (nil for the top function)
+	var analyse func(h *ast.FuncDecl, pools map[string]bool, arg func(i int) []string, depth int)
+	// origins of identifier name in h: the right-hand sides it is bound to; a parameter resolves through arg
+	var originsOf func(h *ast.FuncDecl, name string, arg func(i int) []string) []string
+	originsOf = func(h *ast.FuncDecl, name string, arg func(i int) []string) []string {
+		var out []string
+		c05walk(h.Body, func(as *ast.AssignStmt, g []string) {
+			for i, l := range as.Lhs {
+				if id, ok := l.(*ast.Ident); ok && id.Name == name {
+					if r := rhsOf(as, i); r != nil {
+						out = append(out, c05src(r))
+					}
+				}
+			}
+		})
+		if len(out) == 0 && arg != nil {
+			if k := paramIndex(h, name); k >= 0 {
+				return arg(k)
+			}
+		}
+		if len(out) == 0 {
+			out = []string{"<outer> " + name}
+		}
+		return out
+	}
+	analyse = func(h *ast.FuncDecl, pools map[string]bool, arg func(i int) []string, depth int) {
+		declared := map[string]bool{}
+		type follow struct {
+			call *ast.CallExpr
+			idx  int
+		}
+		var follows []follow
+		seenFollow := map[*ast.CallExpr]bool{}
+		for changed := true; changed; {
+			changed = false
+			bind := func(name string, tok token.Token, rhs ast.Expr, idx int) {
+				if !pools[name] {
+					return
+				}
+				if tok == token.DEFINE || tok == token.VAR {
+					declared[name] = true
+				}
+				if rhs == nil {
+					return
+				}
+				if id, ok := rhs.(*ast.Ident); ok && id.Name != "nil" {
+					if !pools[id.Name] {
+						pools[id.Name] = true
+						changed = true
+					}
+					return
+				}
+				if call, ok := rhs.(*ast.CallExpr); ok && depth < 2 {
+					if hf := helperOf(call); hf != nil {
+						if !seenFollow[call] {
+							seenFollow[call] = true
+							follows = append(follows, follow{call, idx})
+						}
+						return
+					}
+				}
+				inits[c05src(rhs)] = true
+			}
+			c05walk(h.Body, func(as *ast.AssignStmt, g []string) {
+				for i, l := range as.Lhs {
+					if id, ok := l.(*ast.Ident); ok {
+						bind(id.Name, as.Tok, rhsOf(as, i), i)
+					}
+				}
+			})
+			ast.Inspect(h.Body, func(x ast.Node) bool {
+				if vs, ok := x.(*ast.ValueSpec); ok {
+					for i, nm := range vs.Names {
+						var rhs ast.Expr
+						if i < len(vs.Values) {
+							rhs = vs.Values[i]
+						} else if len(vs.Values) == 1 && i == 0 {
+							rhs = vs.Values[0]
+						}
+						bind(nm.Name, token.VAR, rhs, i)
+					}
+				}
+				return true
+			})
+		}
+		for name := range pools {
+			if !strings.HasPrefix(name, "<expr> ") && !declared[name] {
+				inits["<outer> "+name] = true
+				shapeOK = false
+			}
+		}
+		ast.Inspect(h.Body, func(x ast.Node) bool {
+			call, ok := x.(*ast.CallExpr)
+			if !ok {
+				return true
+			}
+			var args []string
+			for _, a := range call.Args {
+				args = append(args, c05src(a))
+			}
+			if sel, ok := call.Fun.(*ast.SelectorExpr); ok {
+				if id, ok := sel.X.(*ast.Ident); ok && pools[id.Name] {
+					adds[sel.Sel.Name+"("+strings.Join(args, ", ")+")"] = true
+					if sel.Sel.Name == "AppendCertsFromPEM" {
+						for _, a := range call.Args {
+							if aid, ok := a.(*ast.Ident); ok {
+								for _, o := range originsOf(h, aid.Name, arg) {
+									pemFrom[o] = true
+								}
+							} else {
+								pemFrom["<expr> "+c05src(a)] = true
+							}
+						}
+					}
+					return true
+				}
+			}
+			for _, a := range call.Args {
+				if id, ok := a.(*ast.Ident); ok && pools[id.Name] {
+					adds["<passed to> "+c05src(call)] = true
+				}
+			}
+			return true
+		})
+		// pools that are the result of a function of cert.go: the facts are about what that function returns
+		for _, fo := range follows {
+			hf := helperOf(fo.call)
+			sub := map[string]bool{}
+			ast.Inspect(hf.Body, func(x ast.Node) bool {
+				if _, isLit := x.(*ast.FuncLit); isLit {
+					return false
+				}
+				rs, ok := x.(*ast.ReturnStmt)
+				if !ok {
+					return true
+				}
+				if len(rs.Results) == 0 { // bare return: the named result
+					k := 0
+					for _, fl := range hf.Type.Results.List {
+						for _, nm := range fl.Names {
+							if k == fo.idx {
+								sub[nm.Name] = true
+							}
+							k++
+						}
+					}
+					return true
+				}
+				if fo.idx >= len(rs.Results) {
+					shapeOK = false
+					inits["<expr> "+c05src(rs)] = true
+					return true
+				}
+				switch r := rs.Results[fo.idx].(type) {
+				case *ast.Ident:
+					if r.Name != "nil" {
+						sub[r.Name] = true
+					}
+				default:
+					inits[c05src(r)] = true
+				}
+				return true
+			})
+			call := fo.call
+			analyse(hf, sub, func(i int) []string {
+				if i >= len(call.Args) {
+					return []string{"<variadic>"}
+				}
+				if id, ok := call.Args[i].(*ast.Ident); ok {
+					return originsOf(h, id.Name, arg)
+				}
+				return []string{"<expr> " + c05src(call.Args[i])}
+			}, depth+1)
+		}
+	}
+	pools := map[string]bool{}
 	nAssigned := 0
 	c05walk(fd.Body, func(as *ast.AssignStmt, g []string) {
 		for i, l := range as.Lhs {
@@ -754,110 +978,7 @@ func c05poolFacts(b *strings.Builder, certF *ast.File) {
 	if nAssigned == 0 {
 		fail("C05: addCaCertificates assigns neither RootCAs nor ClientCAs")
 	}
-	// close under aliasing and collect what the pool variables are bound to
-	inits := map[string]bool{}
-	declared := map[string]bool{}
-	for changed := true; changed; {
-		changed = false
-		bind := func(name string, tok token.Token, rhs ast.Expr) {
-			if !pools[name] {
-				return
-			}
-			if tok == token.DEFINE || tok == token.VAR {
-				declared[name] = true
-			}
-			if rhs == nil {
-				return
-			}
-			if id, ok := rhs.(*ast.Ident); ok && id.Name != "nil" {
-				if !pools[id.Name] {
-					pools[id.Name] = true
-					changed = true
-				}
-				return
-			}
-			inits[c05src(rhs)] = true
-		}
-		c05walk(fd.Body, func(as *ast.AssignStmt, g []string) {
-			for i, l := range as.Lhs {
-				if id, ok := l.(*ast.Ident); ok {
-					bind(id.Name, as.Tok, rhsOf(as, i))
-				}
-			}
-		})
-		ast.Inspect(fd.Body, func(x ast.Node) bool {
-			if vs, ok := x.(*ast.ValueSpec); ok {
-				for i, nm := range vs.Names {
-					var rhs ast.Expr
-					if i < len(vs.Values) {
-						rhs = vs.Values[i]
-					}
-					bind(nm.Name, token.VAR, rhs)
-				}
-			}
-			return true
-		})
-	}
-	for name := range pools {
-		if !strings.HasPrefix(name, "<expr> ") && !declared[name] {
-			inits["<outer> "+name] = true
-			shapeOK = false
-		}
-	}
-	adds := map[string]bool{}
-	pemArgs := map[string]bool{}
-	ast.Inspect(fd.Body, func(x ast.Node) bool {
-		call, ok := x.(*ast.CallExpr)
-		if !ok {
-			return true
-		}
-		var args []string
-		for _, a := range call.Args {
-			args = append(args, c05src(a))
-		}
-		if sel, ok := call.Fun.(*ast.SelectorExpr); ok {
-			if id, ok := sel.X.(*ast.Ident); ok && pools[id.Name] {
-				adds[sel.Sel.Name+"("+strings.Join(args, ", ")+")"] = true
-				if sel.Sel.Name == "AppendCertsFromPEM" {
-					for _, a := range call.Args {
-						if aid, ok := a.(*ast.Ident); ok {
-							pemArgs[aid.Name] = true
-						} else {
-							pemArgs["<expr> "+c05src(a)] = true
-						}
-					}
-				}
-				return true
-			}
-		}
-		for _, a := range call.Args {
-			if id, ok := a.(*ast.Ident); ok && pools[id.Name] {
-				adds["<passed to> "+c05src(call)] = true
-			}
-		}
-		return true
-	})
-	pemFrom := map[string]bool{}
-	for name := range pemArgs {
-		if strings.HasPrefix(name, "<expr> ") {
-			pemFrom[name] = true
-			continue
-		}
-		n := 0
-		c05walk(fd.Body, func(as *ast.AssignStmt, g []string) {
-			for i, l := range as.Lhs {
-				if id, ok := l.(*ast.Ident); ok && id.Name == name {
-					if r := rhsOf(as, i); r != nil {
-						pemFrom[c05src(r)] = true
-						n++
-					}
-				}
-			}
-		})
-		if n == 0 {
-			pemFrom["<outer> "+name] = true
-		}
-	}
+	analyse(fd, pools, nil, 0)
 	keys := func(m map[string]bool) []string {
 		var out []string
 		for k := range m {
